@@ -37,6 +37,13 @@ def gen_case(rng, n):
     tg = occ[:ntg_o] + virt[:ntg_v]
     pools = {"o": occ[:ntg_o + no], "v": virt[:ntg_v + nv]}
     fresh = {"o": occ[ntg_o:], "v": virt[ntg_v:]}
+    if rng.random() < 0.4:
+        # targets named with late letters: contracted names sort before the
+        # targets inside the index groups
+        tg = occ[7 - ntg_o:] + virt[8 - ntg_v:]
+        pools = {"o": occ[:no] + occ[7 - ntg_o:],
+                 "v": virt[:nv] + virt[8 - ntg_v:]}
+        fresh = {"o": occ[:7 - ntg_o], "v": virt[:8 - ntg_v]}
     n_classes = rng.randint(1, 4)
     terms, expected = [], 0
     tags = ["Q1", "Q2", "Q3", "Q4"]
